@@ -169,7 +169,16 @@ def oracle_trace(ops, obs, pid='C03', kind=None):
                               'op %d %r: transaction %d acquired the commit lock while %d held it' % (i, op, t2, holder)))
                 holder = t2
                 cur[t2] = dict(stores={}, checks=[], failed=set())
-        if o == 'base':
+        if o == 'newstorage':
+            if kind is not None:
+                kind = tk[1]
+            hist.clear()
+            cur.clear()
+            holder = None
+            lasttid[0] = 0
+            copyundo.clear()
+            multitids.clear()
+        elif o == 'base':
             hist.setdefault(int(tk[2]), []).append((int(tk[1]), tk[3]))
         elif o == 'begin':
             t = int(tk[1])
@@ -237,6 +246,12 @@ def oracle_trace(ops, obs, pid='C03', kind=None):
                 nontrivial = True
                 if t in cur:
                     cur[t]['failed'].add(oid)
+        elif o == 'restore':
+            t, oid, rec = int(tk[1]), int(tk[2]), tk[3]
+            bump('restore:' + first)
+            if first == 'ok' and holder == t and t in cur:
+                pred = last(oid)       # an unchecked write (recovery / copy tool): a competing revision
+                cur[t]['stores'][oid] = (pred[0] if pred else 0, rec, 'ok', pred[0] if pred else None)
         elif o == 'delete':
             t, oid, serial = int(tk[1]), int(tk[2]), int(tk[3])
             bump('delete:' + first)
@@ -543,6 +558,12 @@ def gen_storage_case(rng, kind, size):
                 oid = rng.choice(oids)
                 serial, seen = view[w].get(oid, (0, 0))
                 seen = seen or 0
+                if kind in ('file', 'hex:file') and rng.random() < 0.05:
+                    # restore(): an unchecked write, as copyTransactionsFrom / recovery tools do
+                    nextval[0] += 1
+                    ops.append('restore %d %d %s' % (w, oid, L.rec_wire(cls[oid], 0, nextval[0])))
+                    staged[w][oid] = nextval[0]
+                    continue
                 if kind == 'file' and rng.random() < 0.07 and sim.get(oid):
                     # IExternalGC.deleteObject: writes an un-creation record (same serial comparison)
                     if rng.random() < 0.3:
@@ -666,11 +687,22 @@ def run_storage_real(case, tmp, tag='s'):
     L.clear_resolution_caches()
     r = L.StorageRunner(case['kind'], tmp, tag, probe=0.02)
     try:
-        obs = [r.op(o) for o in case['ops']]
+        obs = []
+        nst = 0
+        for o in case['ops']:
+            if o.startswith('newstorage '):
+                # a second storage in the same process: process-wide caches are NOT cleared
+                r.close()
+                nst += 1
+                r = L.StorageRunner(o.split()[1], tmp, '%s-n%d' % (tag, nst), probe=0.02)
+                obs.append('ok')
+            else:
+                obs.append(r.op(o))
         # every revision the real storage reports is read back as well
         extra = []
         seen = set()
-        for o, ob in zip(case['ops'], obs):
+        lastns = max([i for i, o in enumerate(case['ops']) if o.startswith('newstorage ')], default=-1)
+        for o, ob in list(zip(case['ops'], obs))[lastns + 1:]:
             tk = o.split()
             if tk[0] == 'hist' and ob.startswith('['):
                 for t in ob.strip('[]').split(','):
@@ -686,7 +718,15 @@ def run_storage_real(case, tmp, tag='s'):
 def model_lines(kind, ops):
     # a record-transforming wrapper (hex:…) is the identity at the model's record level
     kind = kind[4:] if kind.startswith('hex:') else kind
-    return ['reset ' + ('mapping' if kind == 'mvccmapping' else kind)] + L.class_lines() + ops
+    kind = {'mvccmapping': 'mapping', 'demo2': 'demo:mapping:mapping'}.get(kind, kind)
+    out = ['reset ' + kind] + L.class_lines()
+    for o in ops:
+        if o.startswith('newstorage '):
+            k2 = o.split()[1]
+            k2 = k2[4:] if k2.startswith('hex:') else k2
+            o = 'newstorage ' + {'mvccmapping': 'mapping', 'demo2': 'demo:mapping:mapping'}.get(k2, k2)
+        out.append(o)
+    return out
 
 
 # =============================================================================== (b) DB level
@@ -787,6 +827,7 @@ class DbWorld:
         self.oids = {o: L.u64(root[o]._p_oid) for o in case['objs']}
         conn.close()
         self.setup_events = len(self.rec.events)
+        self.rcsnap = []         # (actor, index of its commit entry in the log, {oid: serial})
 
     def close(self):
         try:
@@ -921,6 +962,9 @@ class ConnActor:
             ghost = {}
             if self.pending and self.readcur:
                 self.tm.get().join(Probe({o: root[o] for o in self.readcur}, ghost))
+            # every dependency the connection itself holds at commit time (explicit declarations and
+            # those libraries declare implicitly, e.g. BTrees): Connection._readCurrent {oid: serial}
+            snap = {L.u64(k): L.u64(v) for k, v in self.conn._readCurrent.items()}
             out = commit_outcome(self.tm)
             tid = w.rec.last_finish.get(threading.get_ident()) if out == 'ok' and self.pending else None
             after = {}
@@ -928,7 +972,7 @@ class ConnActor:
                 for o in self.pending:
                     after[o] = _get(root[o])       # what the writer's own connection reads now
             self.log.append(('commit', self.name, out, tid, dict(self.pending), dict(self.readcur), after, ghost,
-                             set(self.dropped)))
+                             set(self.dropped), snap))
             self.pending, self.readcur, self.sps = {}, {}, []
             self.written_since_sp, self.dropped, self.readcur_mod = set(), set(), {}
             self.popped_by_write = {}
@@ -1061,8 +1105,40 @@ def finish_db(w, log):
                 m = re.fullmatch(r'\d+/\d+/a(\d+)\.', ob)
                 ch.append((int(tk[2]), int(m.group(1)) if m else ob))
         chains[o] = sorted(ch)
+    # revision tids of every oid some connection depended on at a commit
+    rchist = {}
+    w.rcsnap = [(e[1], i, e[9]) for i, e in enumerate(log) if e[0] == 'commit' and len(e) > 9]
+    for _, _, snap in w.rcsnap:
+        for oid in snap:
+            if oid not in rchist:
+                try:
+                    rchist[oid] = sorted(L.u64(d['tid']) for d in w.storage.history(L.p64(oid), 100000))
+                except Exception:
+                    rchist[oid] = []
     return dict(ops=ops + fin + extra, obs=obs + fobs + eobs, lock_problems=problems, log=log,
-                chains=chains, initial=w.initial, cls=w.case['cls'], section=w.case['section'])
+                chains=chains, initial=w.initial, cls=w.case['cls'], section=w.case['section'],
+                rcsnap=list(w.rcsnap), rchist=rchist)
+
+
+def oracle_rcsnap(res):
+    """every (oid, serial) in Connection._readCurrent when a commit started must — if the commit
+    succeeded and did not write that oid itself — still be the latest revision before the commit"""
+    P = []
+    log = res['log']
+    for name, idx, snap in res.get('rcsnap', []):
+        if idx >= len(log) or log[idx][0] != 'commit' or log[idx][2] != 'ok' or log[idx][3] is None:
+            continue
+        T = log[idx][3]
+        for oid, ser in snap.items():
+            h = res['rchist'].get(oid, [])
+            if T in h:
+                continue                # written by this very transaction (store() compared its serial)
+            before = [t for t in h if t < T]
+            if before and before[-1] != ser:
+                P.append(('C03:readcurrent-stale-commit',
+                          'commit %d of %s held a readCurrent dependency on oid %d at serial %d, but the latest '
+                          'revision before the commit is %d' % (T, name, oid, ser, before[-1])))
+    return P
 
 
 def oracle_db(res):
@@ -1121,6 +1197,8 @@ def oracle_db(res):
                 P.append(('C03:readcurrent-dropped-by-rolled-back-write' if o in e[8] else 'C03:readcurrent-stale-commit',
                           'commit %d of %s declared %s current at value %r, but the latest revision before the '
                           'commit holds %r' % (e[3], e[1], o, seen, before[-1])))
+    # 2a. the same on the connection's own table at commit time (covers implicit declarations)
+    P += oracle_rcsnap(res)
     # 2b. after a ReadConflictError the connection must have dropped (ghostified) a stale copy, so
     #     that a retry reads the new state
     if res.get('section') == 'db':
@@ -1195,6 +1273,7 @@ def gen_sched_case(rng, kind, seed):
     hist = rng.choice([0, 0, 0, 2, 3]) if 'file' in kind else 0      # history() calls of an extra reader thread
     return dict(section='sched', kind=kind, objs=objs, cls=cls, progs=progs, sched_seed=seed,
                 mode=rng.choice(['random', 'random', 'sticky']), schedule=None, hist=hist,
+                bydb=rng.choice([0, 0, 0, 1, 2]),
                 clock=rng.choice([None, None, None, 'stall', 'back']))
 
 
@@ -1218,6 +1297,21 @@ def run_sched_real(case, tmp, tag='t'):
                 a.conn.close()
             for i, prog in enumerate(case['progs']):
                 s.spawn('c%d' % i, body, i, prog)
+            if case.get('bydb'):
+                # a second database of the same kind in the same process commits concurrently
+                import ZODB
+                import transaction
+                bst, _ = L.make_storage(case['kind'], tmp, tag + '-by')
+                bdb = ZODB.DB(bst)
+
+                def bystander():
+                    tm = transaction.TransactionManager()
+                    c = bdb.open(tm)
+                    for i in range(case['bydb']):
+                        c.root()['x%d' % i] = K.Plain(i)
+                        tm.commit()
+                    c.close()
+                s.spawn('b', bystander)
             if case.get('hist'):
                 # a reader of the storage's shared file object; seek/read become preemption points
                 install_file_proxy(w.storage)
@@ -1445,7 +1539,136 @@ def run_threads_smoke(kind, tmp, n_iter, tag='p'):
     return P
 
 
+# =============================================================================== (d) BTrees
+def gen_btree_case(rng, kind):
+    """connections update one OOBTree (several buckets): inserting into a bucket makes BTrees declare
+    the parent node current IMPLICITLY (`_p_jar.readCurrent`), bulk inserts split buckets and rewrite
+    the parent.  Oracle only (bucket conflict resolution is C code outside the model)."""
+    nconn = rng.choice([2, 2, 3])
+    prog = []
+    for _ in range(rng.choice([6, 10, 16])):
+        c = rng.randrange(nconn)
+        r = rng.random()
+        if r < 0.35:
+            prog.append(['ins', c, rng.randrange(0, 4000)])
+        elif r < 0.5:
+            prog.append(['del', c, rng.randrange(0, 1200, 10)])
+        elif r < 0.65:
+            prog.append(['bulk', c, rng.randrange(0, 4000), rng.choice([20, 40, 70])])
+        elif r < 0.95:
+            prog.append(['commit', c])
+        else:
+            prog.append(['abort', c])
+    for c in range(nconn):
+        prog.append(['commit', c])
+    return dict(section='btree', kind=kind, nconn=nconn, prog=prog)
+
+
+def run_btree_real(case, tmp, tag='b'):
+    import threading
+    import clock
+    import transaction
+    import ZODB
+    from BTrees.OOBTree import OOBTree
+    with clock.scripted():
+        L.clear_resolution_caches()
+        storage, base = L.make_storage(case['kind'], tmp, tag)
+        rec = L.Recorder(storage, L.tid_reader(storage))
+        db = ZODB.DB(storage)
+        try:
+            tm = transaction.TransactionManager()
+            conn = db.open(tm)
+            t = conn.root()['t'] = OOBTree()
+            for k in range(0, 1200, 10):
+                t[k] = k
+            tm.commit()
+            conn.close()
+            actors = []
+            for i in range(case['nconn']):
+                tm = transaction.TransactionManager()
+                actors.append(dict(tm=tm, conn=db.open(tm), delta={}))
+            log, rcsnap = [], []
+            for step in case['prog']:
+                a = actors[step[1]]
+                t = a['conn'].root()['t']
+                try:
+                    if step[0] == 'ins':
+                        t[step[2]] = step[2]
+                        a['delta'][step[2]] = step[2]
+                    elif step[0] == 'del':
+                        if step[2] in t:
+                            del t[step[2]]
+                            a['delta'][step[2]] = None
+                    elif step[0] == 'bulk':
+                        for k in range(step[2], step[2] + step[3]):
+                            t[k] = k
+                            a['delta'][k] = k
+                    elif step[0] == 'abort':
+                        a['tm'].abort()
+                        a['delta'] = {}
+                    else:
+                        rec.last_finish.pop(threading.get_ident(), None)
+                        rcsnap.append(('c%d' % step[1], len(log),
+                                       {L.u64(k): L.u64(v) for k, v in a['conn']._readCurrent.items()}))
+                        out = commit_outcome(a['tm'])
+                        tid = rec.last_finish.get(threading.get_ident()) if out == 'ok' and a['delta'] else None
+                        log.append(('commit', 'c%d' % step[1], out, tid, dict(a['delta'])))
+                        a['delta'] = {}
+                        continue
+                except Exception as e:
+                    log.append(('error', 'c%d' % step[1], step[0], type(e).__name__))
+                    continue
+            ops, obs, problems = rec.lines()
+            rchist = {}
+            for _, _, snap in rcsnap:
+                for oid in snap:
+                    if oid not in rchist:
+                        try:
+                            rchist[oid] = sorted(L.u64(d['tid']) for d in storage.history(L.p64(oid), 100000))
+                        except Exception:
+                            rchist[oid] = []
+            tm = transaction.TransactionManager()
+            conn = db.open(tm)
+            final = dict(conn.root()['t'].items())
+            conn.close()
+            return dict(ops=ops, obs=obs, lock_problems=problems, log=log, rcsnap=rcsnap, rchist=rchist,
+                        final=final, nomodel=True)
+        finally:
+            db.close()
+
+
+def oracle_btree(res):
+    P = [('C03:lock-not-exclusive', p) for p in res['lock_problems']]
+    for e in res['log']:
+        if e[0] == 'commit' and e[2].startswith('Other'):
+            P.append(('C03:commit-failed-oddly', 'commit of %s raised %s' % (e[1], e[2])))
+    P += oracle_rcsnap(res)
+    # serial replay at key level: every successful transaction's inserts / deletes are in the final tree
+    exp = {k: k for k in range(0, 1200, 10)}
+    for e in sorted((e for e in res['log'] if e[0] == 'commit' and e[2] == 'ok' and e[3] is not None), key=lambda e: e[3]):
+        for k, v in e[4].items():
+            if v is None:
+                exp.pop(k, None)
+            else:
+                exp[k] = v
+    if exp != res['final']:
+        miss = sorted(set(exp) ^ set(res['final']))[:8]
+        P.append(('C03:lost-update',
+                  'BTree content differs from the serial replay of the successful commits at keys %s' % miss))
+    return P
+
+
 # =============================================================================== running a case
+def with_session(rng, case, gen, kinds):
+    """in a fifth of the storage cases a SECOND storage is used in the same process after the first
+    (process-wide caches such as ConflictResolution._unresolvable / _class_cache carry over)"""
+    if rng.random() < 0.2:
+        k2 = rng.choice(kinds)
+        second = gen(k2)
+        case = dict(case, ops=case['ops'] + ['newstorage ' + k2] + second['ops'])
+    return case
+
+
 def gen_build(rng):
     """construction path of the case's storage / DB: constructor vs ZODB.config, non-default DB options"""
     return dict(config=rng.random() < 0.3, pool=rng.choice([None, None, 1, 3]),
@@ -1459,6 +1682,8 @@ def run_real(case, tmp, tag):
         return dict(ops=ops, obs=obs)
     if case['section'] == 'db':
         return run_db_real(case, tmp, tag)
+    if case['section'] == 'btree':
+        return run_btree_real(case, tmp, tag)
     if case['section'] == 'histrace':
         return run_histrace_real(case, tmp, tag)
     if case['section'] == 'threads':        # replay of a plain-threads finding
@@ -1509,6 +1734,12 @@ def judge(case, res):
         return [('C03:unexpected-exception:' + res['crash'][0], res['crash'][1])], False, {}
     if case['section'] == 'threads':
         return list(res['threads_problems']), False, {}
+    if case['section'] == 'btree':
+        P = oracle_btree(res)
+        nt = any(e[0] == 'commit' and e[2] in ('Conflict', 'ReadConflict') for e in res['log']) or \
+            any('resolved' in o for o in res['obs'])
+        return P, nt, {'btree-commit:' + e[2]: sum(1 for x in res['log'] if x[0] == 'commit' and x[2] == e[2])
+                       for e in res['log'] if e[0] == 'commit'}
     P, nontriv, hc = oracle_trace(res['ops'], res['obs'])
     if case['section'] != 'storage':
         P += oracle_db(res)
@@ -1527,6 +1758,17 @@ def shrink(case, sig, tmp):
         except InfraError:
             return False
         return any(s == sig for s, _ in P)
+    if case['section'] == 'btree':
+        n = [0]
+
+        def f(sub):
+            n[0] += 1
+            try:
+                r = run_real_safe(dict(case, prog=sub), tmp, 'k%d' % n[0])
+                return any(s_ == sig for s_, _ in judge(case, r)[0])
+            except InfraError:
+                return False
+        return dict(case, prog=ddmin(case['prog'], f, max_tests=60))
     if case['section'] in ('threads', 'histrace'):
         return case
     if case['section'] == 'storage':
@@ -1582,16 +1824,22 @@ def main(argv=None):
                     with open(os.path.join(cdir, fn)) as f:
                         cases.append(json.load(f))
         n_st, n_db, n_sc = (60, 40, 100) if not ck.thorough else (2500, 1500, 4000)
-        for kind in KINDS + ['mvccmapping', 'hex:file']:
+        n0 = (n_st, n_db, n_sc)
+        for kind in KINDS + ['mvccmapping', 'hex:file', 'demo2']:
+            n_st, n_db, n_sc = n0
             if kind == 'mvccmapping':
                 n_st, n_db, n_sc = n_st // 3, n_db, n_sc // 2
-            if kind == 'hex:file':
-                n_st, n_db, n_sc = n_st // 2, n_db // 2, n_sc // 2
+            if kind in ('hex:file', 'demo2'):
+                n_st, n_db, n_sc = n_st // 4, n_db // 4, n_sc // 8
             for _ in range(n_st):
-                cases.append(gen_storage_case(ck.rng, kind, ck.rng.choice([12, 25, 40, 60])))
+                cases.append(with_session(
+                    ck.rng, gen_storage_case(ck.rng, kind, ck.rng.choice([12, 25, 40, 60])),
+                    lambda k2: gen_storage_case(ck.rng, k2, ck.rng.choice([12, 25])), KINDS + ['demo2']))
             if kind == 'file':
                 for _ in range(n_st // 2):
                     cases.append(gen_storage_undo_case(ck.rng))
+            for _ in range(max(n_db // 4, 3)):
+                cases.append(gen_btree_case(ck.rng, kind))
             for _ in range(n_db):
                 cases.append(gen_db_case(ck.rng, kind, ck.rng.choice([8, 14, 24])))
             if have_sched:
@@ -1609,7 +1857,7 @@ def main(argv=None):
     # ---- model: one driver process for everything
     lines, spans = [], []
     for case, res in zip(cases, results):
-        if res is None:
+        if res is None or res.get('nomodel'):
             spans.append(None)
             continue
         ml = model_lines(case['kind'], res['ops'])
@@ -1641,6 +1889,8 @@ def main(argv=None):
             ck.violation(sig, (what2 or [what])[0],
                          dict(case=small, ops=r2['ops'], real=r2['obs'], problems=P2[:5]))
             continue
+        if spans[idx] is None:
+            continue
         start, n = spans[idx]
         mo = mout[start:start + n]
         if mo != res['obs']:
@@ -1668,8 +1918,15 @@ def main(argv=None):
         assumptions=['tids handed to tpc_begin are later than everything committed (as tpc_begin itself '
                      'guarantees; for DemoStorage also later than the base: open finding #10 excluded)',
                      'undo / deletion records, pack and restore are outside this model (C06, C07, C17)',
-                     'thread schedules: preemption at lock operations (sched.py); a plain-threads smoke run '
-                     'adds real preemption without comparison against the model'])
+                     'thread schedules: preemption at lock operations (sched.py) and, with a reader thread, at '
+                     'seek/read of the FileStorage file object; a plain-threads smoke run adds real preemption '
+                     'without comparison against the model',
+                     'ORACLE ONLY (no model comparison): the BTrees section (implicit readCurrent of BTree nodes, '
+                     'bucket conflict resolution in C), the per-commit check of Connection._readCurrent against '
+                     'the real revision history, the bystander database / bystander storage commits and the '
+                     'plain-threads run',
+                     'readCurrent is judged for transactions that write; a transaction that un-creates objects '
+                     'may fail a dependent commit with POSKeyError instead of a conflict error'])
 
 
 def _work(args):
